@@ -3,7 +3,8 @@ Model of /repo/client/interceptor/retry.go (+ types.go) against a scripted serve
 
 Server script: the i-th stream the server accepts sends `msgs` and then ends (`eof`: handler
 returns nil, `err`: handler returns a status error, `hang`: handler waits for the client).  Streams
-opened beyond the script break at once with an error.
+opened beyond the script break at once with an error.  A script element can also be `failed`: that
+re-open attempt fails on the client (open or re-send error) and never reaches the server.
 
 retryStream.RecvMsg:
     if err = s.ClientStream.RecvMsg(m); err == nil || errors.Is(err, context.Canceled) { return }
@@ -36,10 +37,33 @@ inductive ErrClass where
   | blocked       -- the model's client would wait forever (script hangs and nobody cancels)
   deriving Repr, DecidableEq, Inhabited
 
-structure Stream (μ : Type) where
+/-- a stream the server serves: its messages, then how it ends -/
+structure Served (μ : Type) where
   msgs : List μ
   fin : End
   deriving Repr, DecidableEq
+
+/-- one element of a script = the outcome of one attempt to open a stream: either the server serves
+it, or the attempt fails on the client side BEFORE the request reaches the server handler
+(`newStream()` returns an error, or re-sending the stored request with `SendMsg(s.sent)` fails).
+A failed attempt costs one operation of the retry budget exactly like a stream that delivers nothing. -/
+inductive Stream (μ : Type) where
+  | served (s : Served μ)
+  | failed
+  deriving Repr, DecidableEq
+
+def Stream.msgs {μ} : Stream μ → List μ
+  | .served s => s.msgs
+  | .failed => []
+
+def Stream.fin {μ} : Stream μ → End
+  | .served s => s.fin
+  | .failed => .err
+
+/-- does the request of this attempt reach the server handler? -/
+def Stream.reaches {μ} : Stream μ → Bool
+  | .served _ => true
+  | .failed => false
 
 def endErr : End → ErrClass
   | .eof => .eof | .err => .unavailable | .hang => .blocked
@@ -69,7 +93,8 @@ def attempt {μ ρ} : Nat → ErrClass → Cli μ ρ → Recv μ ρ
     match c.rest with
     | [] => attempt fuel .unavailable { c with cur := [], curEnd := .err, reqs := c.reqs ++ [c.sent] }
     | s :: r =>
-      let c' : Cli μ ρ := { c with cur := s.msgs.tail, curEnd := s.fin, rest := r, reqs := c.reqs ++ [c.sent] }
+      let c' : Cli μ ρ := { c with cur := s.msgs.tail, curEnd := s.fin, rest := r,
+                                   reqs := if s.reaches then c.reqs ++ [c.sent] else c.reqs }
       match s.msgs with
       | m :: _ => .msg m c'
       | [] => if s.fin = .hang then .fail .blocked c' else attempt fuel (endErr s.fin) c'
@@ -116,7 +141,9 @@ def recvLoop {μ ρ} (watch : Bool) (max : Nat) : Option Nat → Nat → Cli μ 
       let r := recvLoop watch max (ca.map (· - 1)) fuel c'
       { r with delivered := m :: r.delivered }
 
-/-- the generated client stub: open the first stream, `SendMsg(req)` (remembered in `sent`) -/
+/-- the generated client stub: open the first stream, `SendMsg(req)` (remembered in `sent`).  The first
+script element is the stream the call was created with (a failing creation is not a retry matter and
+is not modelled: a `failed` first element is read as a stream that breaks at once). -/
 def start {μ ρ} (reach cancelIs : Bool) (script : List (Stream μ)) (req : ρ) : Cli μ ρ :=
   match script with
   | [] => { cur := [], curEnd := .err, rest := [], sent := req, reqs := [req], reach := reach, cancelIs := cancelIs }
